@@ -671,11 +671,15 @@ func (logHook) Fire(e *logrus.Entry) error {
 func main() {
 	logrus.SetLevel(logrus.ErrorLevel)
 	logrus.AddHook(logHook{})
+	debugLog := flag.Bool("debuglog", false, "run gluon with logrus at debug level (formatted, output discarded)")
 	seed := flag.Int64("seed", 1, "seed")
 	flag.StringVar(&out, "out", ".", "output dir")
 	nSess := flag.Int("sessions", 8, "sessions of the first user")
 	runMs := flag.Int("run-ms", 2500, "activity before teardown (ms)")
 	flag.Parse()
+	if *debugLog {
+		logrus.SetLevel(logrus.DebugLevel)
+	}
 	os.MkdirAll(out, 0o755)
 	rng := rand.New(rand.NewSource(*seed))
 	// variants of the teardown
@@ -781,7 +785,7 @@ func main() {
 	}
 	// goroutines left behind: give the server a grace period to wind down
 	var left []string
-	for i := 0; i < 100; i++ {
+	for i := 0; i < 150; i++ {
 		left = leftover()
 		if len(left) == 0 {
 			break
@@ -807,7 +811,7 @@ func main() {
 					break
 				}
 			}
-			fail("leak", "goroutine left 10 s after Close and listener close: "+fn, fmt.Sprintf("%d such goroutine(s)\n%s", byFn[fn], detail))
+			fail("leak", "goroutine left 15 s after Close and listener close: "+fn, fmt.Sprintf("%d such goroutine(s)\n%s", byFn[fn], detail))
 		}
 	}
 	os.RemoveAll(s.Dir)
